@@ -39,7 +39,7 @@ LEVEL = "proof"
 TECHNIQUE = "relational symbolic execution of the real update_E with and without the dispersive arrays on one symbolic state; pointwise obligations by z3 / exact ring normal form; initial state by a bounded run of the real place_objects"
 MODULES = K.SOLVER_MODULES
 FILES = ["src/fdtdx/fdtd/update.py", "src/fdtdx/dispersion.py", "src/fdtdx/fdtd/initialization.py"]
-FUNCTIONS = ["fdtdx.fdtd.update.update_E (dispersive ADE branch, diagonal and full-tensor kernels)"]
+FUNCTIONS = ["fdtdx.fdtd.update.update_E (dispersive ADE branch, diagonal and full-tensor kernels)", "fdtdx.dispersion.compute_pole_coefficients / _per_axis / _tensor: acceptance gate + Jury conditions (tasks acceptance_gate(C35)/*, C35's contracts re-proved under this property)"]
 INLINED = [
     "fdtdx.fdtd.update.pad_fields_for_boundaries",
     "fdtdx.core.physics.curl.curl_H",
@@ -331,10 +331,29 @@ def tasks(tier, seed):
         out[f"step/{_label(s)}"] = Task(_step(s))
     for kind in ("lorentz+drude", "ccpr"):
         out[f"initial_state/{kind}"] = Task(_initial_state(kind), modules=[], bounded=True)
+    # "passive Lorentz/Drude media that placement accepts ... do not grow": the acceptance gate of the coefficient
+    # functions every placement path goes through (a raise only for an unresolved ACTIVE axis; everything accepted
+    # satisfies the Jury conditions, which with the jury theorem keep the recurrence roots in the closed unit disk)
+    # is C35's contract; those tasks are re-proved here on the same real code so that a weakened gate fails under
+    # this property as well.  The 10^4-step energy factor itself is not covered (see ASSUMPTIONS).
+    import props.C35 as P35
+
+    for k, t in P35.tasks(tier, seed).items():
+        parts = k.split("/")
+        if k == "jury_theorem" or (len(parts) == 3 and parts[0] in ("per_axis", "tensor", "scalar") and parts[1] in ("lorentz", "drude")):
+            out[f"acceptance_gate(C35)/{k}"] = Task(t.body, modules=t.modules if t.modules is not None else P35.MODULES, axioms=t.axioms, on_exception=t.on_exception, extra_patch=t.extra_patch, bounded=t.bounded, max_paths=t.max_paths, patch_names=t.patch_names)
     return out
 
 
 def replay(key, obligation, witness):
+    if key.startswith("acceptance_gate(C35)/"):
+        import props.C35 as P35
+
+        return P35.replay(key.split("/", 1)[1], obligation, witness)
+    return _replay_step(key, obligation, witness)
+
+
+def _replay_step(key, obligation, witness):
     """real update_E (real JAX, float64) with and without the dispersive arrays on a random small state
     of the failing configuration: compares with the documented recurrence / correction"""
     import jax
